@@ -76,7 +76,8 @@ func executeCompaction(db *DB) (compactionMetadata *proto.CompactionMetadata, er
 	writer, err := sstables.NewSSTableStreamWriter(
 		sstables.WriteBasePath(writeFolder),
 		sstables.WithKeyComparator(skiplist.BytesComparator{}),
-		sstables.BloomExpectedNumberOfElements(numRecords))
+		// the writer refuses zero expected elements, which legitimately happens when all selected tables are empty
+		sstables.BloomExpectedNumberOfElements(max(numRecords, 1)))
 	if err != nil {
 		return nil, err
 	}
